@@ -23,7 +23,7 @@ pub fn payloads(text: &str, dir: &str) -> Vec<String> {
 }
 
 pub fn gen_note_library(r: &mut Rng) -> Vec<(String, String)> {
-    let keys: Vec<String> = vec!["a".into(), "b".into(), "d/x".into()];
+    let keys: Vec<String> = vec!["a".into(), "b".into(), "d/x".into(), "d/y".into()];
     let main = if r.chance(1, 4) { "d/x" } else { "a" };
     keys.iter()
         .map(|k| {
@@ -223,7 +223,7 @@ pub fn run(ctx: &Ctx, model: &mut Model, rep: &mut Report) {
         let lib = parse_lib(&v["library"]);
         rep.evaluations += 1;
         if let Some(l0) = act::formatted(&lib, v["ext"].as_str().unwrap_or("")) {
-            if let Some(what) = check_note(&l0, v["ext"].as_str().unwrap_or(""), v["key"].as_str().unwrap_or("a")) {
+            if let Some(what) = act::with_via(act::via_from(&v["via"]), || check_note(&l0, v["ext"].as_str().unwrap_or(""), v["key"].as_str().unwrap_or("a"))) {
                 rep.fail(json!({"kind": "conversion", "library": lib, "ext": v["ext"], "key": v["key"], "what": what}));
             }
         }
@@ -277,8 +277,10 @@ pub fn run(ctx: &Ctx, model: &mut Model, rep: &mut Report) {
         if i < 1 {
             rep.sample(json!({"library": l0, "ext": ext, "key": key}));
         }
-        if let Some(what) = check_note(&l0, ext, key) {
-            rep.fail(json!({"kind": "conversion", "library": lib, "ext": ext, "key": key, "what": what}));
+        let via = act::via_for(i as u64);
+        rep.count(&format!("loaded_via_{:?}", via));
+        if let Some(what) = act::with_via(via, || check_note(&l0, ext, key)) {
+            rep.fail(json!({"kind": "conversion", "library": lib, "ext": ext, "key": key, "via": format!("{:?}", via), "what": what}));
         }
     }
 }
